@@ -97,8 +97,10 @@ type sut struct {
 type okState struct {
 	snap  string
 	ids   map[int]bool
-	bound int64 // oldest epoch id + number of epochs listed
-	seq   int   // position in the event log when the write returned
+	bound   int64 // oldest epoch id + number of epochs listed
+	seq     int   // position in the event log when the write returned
+	oldest  int64
+	callSeq int // position in the event log of the WritePersistentState call
 }
 
 func (s *sut) nowMs() int64 { return time.Since(s.start).Milliseconds() }
@@ -265,6 +267,7 @@ func (st recStore) WritePersistentState(ps *pb.PersistentState) error {
 	snap, ids, bound := s.showState(ps.OldestEpochId, ps.Blocks)
 	s.mu.Lock()
 	s.log = append(s.log, event{w, "write " + snap, s.nowMs()})
+	callSeq := len(s.log) - 1
 	var err error
 	if !s.auto && !s.autoWrite {
 		p := &parked{make(chan error)}
@@ -274,7 +277,7 @@ func (st recStore) WritePersistentState(ps *pb.PersistentState) error {
 		s.mu.Lock()
 	}
 	if err == nil {
-		s.okStates = append(s.okStates, okState{snap, ids, bound, len(s.log)})
+		s.okStates = append(s.okStates, okState{snap, ids, bound, len(s.log), int64(ps.OldestEpochId), callSeq})
 	}
 	s.mu.Unlock()
 	return err
